@@ -144,11 +144,11 @@ Proof. intro H. unfold class_getattr, mro_of, get_class. rewrite H. apply lookup
 Lemma base_function_same_classes w w' b key acc : w_classes w = w_classes w' -> base_function w b key acc = base_function w' b key acc.
 Proof. intro H. unfold base_function. rewrite (class_getattr_same_classes w w' b key H). reflexivity. Qed.
 
-(** an accessor of a property in the namespace is new, or it is the accessor the first base shows *)
+(** an accessor of a property in the namespace is new, or it is the accessor a direct base shows *)
 Definition acc_ok (w0 w : world) (bases : list nat) (key : string) (acc : mkind) (o : option nat) : Prop :=
   match o with
   | None => True
-  | Some x => fresh_f w0 x \/ (exists b rest, bases = b :: rest /\ base_function w b key acc = Some (Some x))
+  | Some x => fresh_f w0 x \/ (exists b, In b bases /\ base_function w b key acc = Some (Some x))
   end.
 
 Definition member_ok (w0 w : world) (bases : list nat) (key : string) (m : member) : Prop :=
@@ -166,8 +166,8 @@ Lemma member_ok_same_classes w0 w w' bases key m :
 Proof.
   intro H. destruct m as [k f|g s d|n]; cbn; auto.
   assert (A : forall acc o, acc_ok w0 w bases key acc o -> acc_ok w0 w' bases key acc o).
-  { intros acc [x|]; cbn; auto. intros [Hx|(b & rest & Hb & Hf)]; [left; exact Hx|right].
-    exists b, rest. split; [exact Hb|]. rewrite <- (base_function_same_classes w w' b key acc H). exact Hf. }
+  { intros acc [x|]; cbn; auto. intros [Hx|(b & Hb & Hf)]; [left; exact Hx|right].
+    exists b. split; [exact Hb|]. rewrite <- (base_function_same_classes w w' b key acc H). exact Hf. }
   intros (A1 & A2 & A3). repeat split; apply A; assumption.
 Qed.
 
@@ -196,16 +196,17 @@ Proof.
   intros Hn. unfold prop_start. destruct k; try discriminate.
   all: destruct (ns_get ns name) as [m|] eqn:E;
        [intro H; injection H as <-; apply Hn; apply ns_get_in; exact E|];
-       destruct inherit; [|discriminate]; destruct bases as [|b rest]; [discriminate|];
+       destruct inherit as [j|]; [|discriminate]; destruct (nth_error bases j) as [b|] eqn:Nb; [|discriminate];
+       apply nth_error_In in Nb;
        destruct (class_getattr w b name) as [[kk f|g s d|n]|] eqn:G; try discriminate;
        intro H; injection H as <-; cbn;
        assert (B : forall acc, base_function w b name acc =
                   match acc with MGet => option_map Some g | MSet => option_map Some s | MDel => option_map Some d | _ => Some None end)
          by (intro acc; unfold base_function; rewrite G; reflexivity);
        repeat split;
-       [destruct g as [x|]; cbn; auto; right; exists b, rest; split; [reflexivity|rewrite B; reflexivity]
-       |destruct s as [x|]; cbn; auto; right; exists b, rest; split; [reflexivity|rewrite B; reflexivity]
-       |destruct d as [x|]; cbn; auto; right; exists b, rest; split; [reflexivity|rewrite B; reflexivity]].
+       [destruct g as [x|]; cbn; auto; right; exists b; split; [exact Nb|rewrite B; reflexivity]
+       |destruct s as [x|]; cbn; auto; right; exists b; split; [exact Nb|rewrite B; reflexivity]
+       |destruct d as [x|]; cbn; auto; right; exists b; split; [exact Nb|rewrite B; reflexivity]].
 Qed.
 
 Lemma ns_add_ok w0 w bases start ns name k f :
@@ -318,11 +319,15 @@ Lemma decorate_opt_good w0 w bases dbc key acc o w' o' :
 Proof.
   intros Hk Hc Ho H. unfold decorate_opt in H. destruct o as [x|]; [|injection H as <- <-; auto].
   destruct (existsb _ bases) eqn:E; [injection H as <- <-; auto|].
-  cbn in Ho. destruct Ho as [Hx|(b & rest & Hb & Hf)].
+  cbn in Ho. destruct Ho as [Hx|(b & Hb & Hf)].
   - destruct (decorate_namespace_fn w bases dbc key acc x) as [[w1 f1]|e] eqn:D; cbn [bind] in H; [|discriminate].
     injection H as <- <-. destruct (decorate_namespace_fn_good w0 w bases dbc key acc x w1 f1 Hk Hc Hx D) as (A & B & _). auto.
-  - (* the accessor of the first base: the test above has found it *)
-    exfalso. subst bases. cbn in E. rewrite Hf, Nat.eqb_refl in E. cbn in E. discriminate.
+  - (* the accessor of a direct base: the test above has found it *)
+    exfalso. assert (T : existsb (fun b0 => match base_function w b0 key acc with
+                                            | Some (Some y) => Nat.eqb x y
+                                            | _ => false end) bases = true).
+    { apply existsb_exists. exists b. split; [exact Hb|]. rewrite Hf. apply Nat.eqb_refl. }
+    rewrite T in E. discriminate.
 Qed.
 
 Lemma dbc_decorate_members_good w0 bases dbc : forall todo w ns w' ns',
